@@ -223,9 +223,33 @@ func (r *RdbReader) ReadBytesP(n int) []byte {
 	return p
 }
 
+// readBytesStep bounds what a single length field can make ReadBytes allocate
+// before the bytes have actually arrived.
+const readBytesStep = 64 * 1024 * 1024
+
 func (r *RdbReader) ReadBytes(n int) ([]byte, error) {
-	p := make([]byte, n)
-	return p, r.readFull(p)
+	if n < 0 {
+		return nil, errors.Errorf("invalid length : %d", n)
+	}
+	if n <= readBytesStep {
+		p := make([]byte, n)
+		return p, r.readFull(p)
+	}
+	// a length field of a damaged or truncated snapshot must not be trusted with
+	// one huge allocation (an absurd size is a fatal out-of-memory, not an
+	// error): grow the buffer as the data arrives
+	p := make([]byte, 0, readBytesStep)
+	for len(p) < n {
+		k := n - len(p)
+		if k > readBytesStep {
+			k = readBytesStep
+		}
+		p = append(p, make([]byte, k)...)
+		if err := r.readFull(p[len(p)-k:]); err != nil {
+			return p, err
+		}
+	}
+	return p, nil
 }
 
 func (r *RdbReader) ReadUint8P() uint8 {
